@@ -170,6 +170,11 @@ static void runCase(const std::string& mode, const std::string& choiceTxt, const
     gen::Choice ch = gen::parseChoice(choiceTxt); gen::Content c; gen::Layout l;
     if (mode == "c12") { if (!c12Content(choiceTxt, c, l)) { out.outcome = "not-well-formed"; return; } }
     else if (ch.count("file")) { }
+    else if (ch.count("strpad")) {   // sweep of declared string widths against text lengths: a text of t characters in cells of w characters (the writer pads, the reader trims)
+        int w = atoi(ch["strpad"].c_str()), t = atoi(ch["strpad"].substr(ch["strpad"].find(':') + 1).c_str()); gen::Choice none; gen::apply(none, c, l); c.extra = "custom";
+        std::string text; for (int i = 0; i < t; ++i) text += (char)('a' + i % 26);
+        c.customParams.push_back(gen::GParam::strs("PAD2D", w, {2}, {text, t > 1 ? text.substr(0, (size_t)t - 1) : std::string()})); c.customParams.push_back(gen::GParam::strs("PAD1D", w, {}, {text})); c.customParams.push_back(gen::GParam::ints("AFTER", {}, {7}));
+    }
     else if (!gen::apply(ch, c, l)) { out.outcome = "not-well-formed"; return; }
     std::string bytes; bool vendor = ch.count("file") > 0;
     if (vendor) { if (!readAll(ch["file"], bytes)) { out.outcome = "vendor-file-missing"; return; } } else bytes = gen::encode(c, l);
@@ -259,7 +264,9 @@ int main(int argc, char** argv) {
     }
     std::vector<gen::Choice> choices; std::vector<std::string> cases;
     if (mode == "c12") { cases = c12Cases(thorough); choices.resize(cases.size()); for (size_t i = 0; i < cases.size(); ++i) choices[i]["case"] = cases[i]; }
-    else { gen::enumerate(gen::dims(thorough), devs, choices); for (auto& v : vendorFiles) { gen::Choice c; c["file"] = v; choices.push_back(c); } for (auto& c : choices) cases.push_back(gen::choiceText(c)); }
+    else { gen::enumerate(gen::dims(thorough), devs, choices); for (auto& v : vendorFiles) { gen::Choice c; c["file"] = v; choices.push_back(c); }
+        if (mode == "c02" || mode == "c04") for (int w = 0; w <= 255; ++w) for (int t : {0, 1, 6}) { if (t > w) continue; gen::Choice c; c["strpad"] = std::to_string(w) + ":" + std::to_string(t); choices.push_back(c); }
+        for (auto& c : choices) cases.push_back(gen::choiceText(c)); }
     if (mode == "corpus") {
         mkdir(emitDir.c_str(), 0755); size_t n = 0; FILE* idx = fopen((emitDir + "/index.txt").c_str(), "w");
         for (auto& cs : cases) { gen::Choice ch = gen::parseChoice(cs); gen::Content c; gen::Layout l; if (!gen::apply(ch, c, l)) continue; std::string f = emitDir + "/f" + std::to_string(n++) + ".c3d"; writeAll(f, gen::encode(c, l)); fprintf(idx, "%s\t%s\n", f.c_str(), cs.c_str()); }
